@@ -119,3 +119,7 @@ def evaluate(case, drv):
     if case["id"].endswith("305"):
         res["sample"] = {"id": case["id"], "expect": case["expect"], "mamba": case["src"]}
     return res
+
+
+def coverage(tier, agg):
+    return scopeseq.machine_stats("C07", tier)
